@@ -1,7 +1,7 @@
 (* C11 driver.
    input : a cell name  <transport>:<server|client>:<pool|nopool>:<fault>   (Panic.cell_name)
            or the word  cells      -> all applicable cell names, space separated
-           or the word  accounted  -> table_accounted goroutines_present #unresolved format_shielded udp_max_body
+           or the word  accounted  -> table_accounted goroutines_present #unresolved format_shielded udp_max_body format_total
    output: <verdict>|<contained 0/1>|<escaped 0/1>|<recovering frame or ->|<stack, innermost first, comma separated>|<calls during teardown succeed 0/1>
    The verdict is computed by the extracted model over the extracted copy of Gen/RecoverTable.v. *)
 open Common
@@ -34,8 +34,9 @@ let run line =
   match String.trim line with
   | "cells" -> String.concat " " (Stdlib.List.map (fun c -> ml_of_coq (Panic.cell_name c)) Panic.cells)
   | "accounted" ->
-    Printf.sprintf "%s %s %d %s %d" (b01 (Panic.table_accounted t)) (b01 (Panic.goroutines_present t))
+    Printf.sprintf "%s %s %d %s %d %s" (b01 (Panic.table_accounted t)) (b01 (Panic.goroutines_present t))
       (Stdlib.List.length (Panic.unresolved_entries t)) (b01 (Panic.format_shielded t)) (int_of_n Panic.udp_max_body)
+      (b01 (Panic.format_total t))
   | name ->
     (match Panic.find_cell (coq_of_ml name) with
      | None -> "NOCELL"
